@@ -187,7 +187,9 @@ def gen_mdrv(verif, dst, repo):
     items = []
     for rx, what in [(r"^pub struct ApplicationClose \{", "ApplicationClose"),
                      (r"^impl ApplicationClose \{", "impl ApplicationClose"),
-                     (r"^pub enum StreamWriteError \{", "StreamWriteError")]:
+                     (r"^pub enum StreamWriteError \{", "StreamWriteError"),
+                     (r"^pub enum StreamReadError \{", "StreamReadError"),
+                     (r"^pub enum StreamReadExactError \{", "StreamReadExactError")]:
         t, ln = slice_item(err, rx, what)
         items.append(t)
         sliced[f"wtransport/src/error.rs:{ln} {what}"] = len(t)
@@ -213,7 +215,22 @@ def gen_mdrv(verif, dst, repo):
     utils = rd("driver/utils.rs")
     t, ln = slice_item(utils, r"^pub fn varint_w2q\(", "varint_w2q")
     sliced[f"wtransport/src/driver/utils.rs:{ln} varint_w2q"] = len(t)
-    write_if_changed(os.path.join(gen_root, "utils_items.rs"), t + "\n")
+    t2, ln2 = slice_item(utils, r"^pub enum TrySendError<T> \{", "TrySendError")
+    sliced[f"wtransport/src/driver/utils.rs:{ln2} TrySendError"] = len(t2)
+    write_if_changed(os.path.join(gen_root, "utils_items.rs"), t + "\n\n" + t2 + "\n")
+
+    # Worker::handle_uni_h3_stream / handle_bi_h3_stream: methods sliced into `impl WorkerH`; the
+    # `#[instrument(..)]` attribute (tracing span, no effect on behaviour) is dropped
+    hu, lnu = slice_item(drv, r"^        fn handle_uni_h3_stream\(", "Worker::handle_uni_h3_stream")
+    hb, lnb = slice_item(drv, r"^        fn handle_bi_h3_stream\(", "Worker::handle_bi_h3_stream")
+    hb2 = re.sub(r"^\s*#\[instrument\([^\n]*\)\]\n", "", hb, flags=re.M)
+    if "#[instrument" in hb2 or hb2.count("fn handle_bi_h3_stream(") != 1:
+        raise GenError("handle_bi_h3_stream slice has an unexpected shape")
+    sliced[f"wtransport/src/driver/mod.rs:{lnu} Worker::handle_uni_h3_stream"] = len(hu)
+    sliced[f"wtransport/src/driver/mod.rs:{lnb} Worker::handle_bi_h3_stream (#[instrument] attribute dropped)"] = len(hb2)
+    write_if_changed(os.path.join(gen_root, "worker_handlers.rs"),
+                     "impl WorkerH {\n" + hu.replace("fn handle_uni_h3_stream(", "pub fn handle_uni_h3_stream(", 1) + "\n\n"
+                     + hb2.replace("fn handle_bi_h3_stream(", "pub fn handle_bi_h3_stream(", 1) + "\n}\n")
 
     conn = rd("connection.rs")
     t, ln = slice_item(conn, r"^    pub fn max_datagram_size\(&self\)", "Connection::max_datagram_size")
@@ -228,7 +245,8 @@ def gen_mdrv(verif, dst, repo):
                          "impl %sBuilder {\n" % name.capitalize() + t + "\n}\n")
 
     return {
-        "rehosted": ["wtransport/src/driver/streams/connect.rs", "wtransport/src/driver/streams/settings.rs", "wtransport/src/datagram.rs"],
+        "rehosted": ["wtransport/src/driver/streams/connect.rs", "wtransport/src/driver/streams/settings.rs",
+                     "wtransport/src/driver/streams/qpack.rs", "wtransport/src/datagram.rs"],
         "sliced": sliced,
         "models": ["models/tracing (no-op macros)", "models/tokio (sync::watch as a shared cell)",
                    "kani/mdrv/src/models_local/streams.rs (scripted StreamSession / StreamUniRemoteH3 / StreamUniLocalH3)",
